@@ -10,6 +10,7 @@ func checkC01(c *Ctx) {
 	ruleClamp(c)
 	ruleAlias(c)
 	ruleCursorPair(c)
+	ruleBufForward(c)
 	ruleProvOffsets(c)
 	ruleWSSpec(c)
 	ruleLineCountStep(c)
@@ -23,6 +24,7 @@ func checkC08(c *Ctx) {
 	ruleReadNUsed(c)
 	ruleReadErrKept(c)
 	ruleLineComplete(c)
+	ruleBufForward(c)
 	ruleSameMachine(c)
 	ruleCtor(c)
 	c.Assume("equality of the produced trees under arbitrary chunking (CR look-ahead at a buffer end, NUL padding across chunk boundaries, buffer growth) is arithmetic over buffer contents and is not decided")
@@ -30,6 +32,9 @@ func checkC08(c *Ctx) {
 
 func init() {
 	addControls(
+		Control{Name: "neg-readline-grow-with-append", Props: []string{"C01", "C08", "C04"}, File: "parse.go", Negative: true,
+			Old: "\t\t\tnewbuf := make([]byte, len(p.buf), newSize)\n\t\t\tcopy(newbuf, p.buf)\n\t\t\tp.buf = newbuf", New: "\t\t\tp.buf = append(make([]byte, 0, newSize), p.buf...)",
+			Why: "the buffer grows into a fresh allocation, written with append"},
 		Control{Name: "offset-from-raw-index", Props: []string{"C01"}, File: "parse.go",
 			Old: "\t\tp.offset += int64(unpaddedNullLength(p.buf[:p.i]))\n\t\tp.lineno += lineCount(p.buf[:p.i])", New: "\t\tp.offset += int64(p.i)\n\t\tp.lineno += lineCount(p.buf[:p.i])", Expect: "PROV(offset)"},
 		Control{Name: "padNulls-without-clamp", Props: []string{"C01"}, File: "parse.go",
